@@ -349,9 +349,20 @@ def bloch_point(ctx):
         if np.min(np.linalg.norm(d * cell.max() / cell, axis=-1)) >= 0.05:
             break
     arr = unit(d) * 10.0 ** rng.uniform(-3, 3, size=(*n, 1))
-    f = gen.via_history(None, df.Field(mesh, nvdim=3, value=arr))
-    fr = df.Field(mesh, nvdim=3, value=-arr)
-    info = {"tool": "count_bps", "n": n, "cell": cell, "centre_index": idx, "dims": dnames}
+    shift = int(rng.integers(0, 3))
+    kwm = {}
+    if shift:
+        # the same physical hedgehog stored with cyclically shifted components: component j
+        # points along axis (j + shift) % 3 and says so in its mapping (a cyclic shift is an
+        # even permutation, so even a purely positional triple product is unchanged)
+        labs = ["a", "b", "c"]
+        kwm = {"vdims": labs,
+               "vdim_mapping": gen.shuffle_keys(rng, {labs[j]: dnames[(j + shift) % 3] for j in range(3)})}
+        arr = np.stack([arr[..., (j + shift) % 3] for j in range(3)], axis=-1)
+    f = gen.via_history(None, df.Field(mesh, nvdim=3, value=arr, **kwm))
+    fr = df.Field(mesh, nvdim=3, value=-arr, **kwm)
+    info = {"tool": "count_bps", "n": n, "cell": cell, "centre_index": idx, "dims": dnames,
+            "component_shift": shift}
     # quick tier: every direction for the hedgehog, one (rotating) direction reversed
     rev_dirs = dnames if ctx.thorough else [dnames[(ctx.i // 7) % 3]]
     for direction in dnames:
@@ -386,7 +397,15 @@ def neighbour_angles(ctx):
     pmin = rng.uniform(-3, 3, 3) * cell * n
     dims = gen.pick(rng, [None, None, ["a", "b", "c"], ["z", "x", "y"]])
     dnames = dims or ["x", "y", "z"]
-    region = df.Region(p1=pmin.tolist(), p2=(pmin + cell * n).tolist(), dims=dims)
+    int_corners = rng.random() < 0.25
+    if int_corners:
+        # corners given as Python integers (Mesh(p1=(0, 0, 0), p2=(10, 10, 10), ...)), odd and
+        # even cell edges, regions straddling the origin
+        cell = rng.integers(1, 4, 3).astype(float)
+        pmin = rng.integers(-6, 4, 3).astype(float)
+        region = df.Region(p1=[int(x) for x in pmin], p2=[int(x) for x in pmin + cell * n], dims=dims)
+    else:
+        region = df.Region(p1=pmin.tolist(), p2=(pmin + cell * n).tolist(), dims=dims)
     mesh = df.Mesh(region=region, n=[int(k) for k in n])
     arr = rng.normal(size=(*n, 3))
     # parallel / antiparallel / nearly parallel neighbours
